@@ -72,7 +72,7 @@ def run(ctx, res):
                 v = c["value"]
                 name = A.show(v.fields.get("name"))
                 attrs = A.show(v.fields.get("attrs"))
-                if not name.endswith("][0].0") or "[1..]" not in attrs or ".rev()" in attrs or "skip(" in attrs:
+                if not name.endswith("][0].0") or "[1..]" not in attrs or T.shortened(attrs):
                     ok = False
                     why = "name=%s attrs=%s" % (name, attrs[:120])
     clos = [n for n in T.nodes(b["tree"], "closure") if n is not m["closure"]]
